@@ -133,6 +133,93 @@ func genC04Parallel(r *core.Rand, env *core.Env, run int) *Scenario {
 	return sc
 }
 
+// c04Templates are well-formed commands that use every option of their
+// command.  The generator cuts them short at every length and drops single
+// words: an option keyword whose value is missing, at the very end of the
+// argument vector, is where hand-written parsers index past the end.
+var c04Templates = [][]string{
+	{"xadd", "kx", "nomkstream", "maxlen", "~", "5", "limit", "10", "*", "f", "v"},
+	{"xadd", "kx", "maxlen", "=", "5", "2-1", "f", "v"},
+	{"xadd", "kx", "minid", "~", "1-0", "limit", "3", "3-1", "f", "v", "g", "w"},
+	{"xadd", "kmissing", "nomkstream", "minid", "=", "0-1", "*", "f", "v"},
+	{"xrange", "kx", "-", "+", "count", "2"},
+	{"xrange", "kx", "(1-0", "(5-0", "count", "1"},
+	{"set", "ks", "v", "ex", "10", "nx", "get", "keepttl"},
+	{"set", "ks", "v", "px", "10000", "xx", "get"},
+	{"set", "ks", "v", "exat", "4000000000", "get"},
+	{"setex", "ks", "10", "v"},
+	{"expire", "ks", "10", "xx", "gt"},
+	{"zadd", "kz", "xx", "gt", "ch", "incr", "1", "a"},
+	{"zadd", "kz", "nx", "ch", "1", "m", "2", "n"},
+	{"zrange", "kz", "0", "-1", "byscore", "rev", "limit", "0", "1", "withscores"},
+	{"zrange", "kz", "(1", "+inf", "byscore", "limit", "0", "1"},
+	{"zrange", "kz", "[a", "+", "bylex", "limit", "0", "1"},
+	{"lpos", "kl", "a", "rank", "-1", "count", "2", "maxlen", "3"},
+	{"lmove", "kl", "kmissing", "left", "right"},
+	{"lpop", "kl", "2"},
+	{"lrem", "kl", "-1", "a"},
+	{"ltrim", "kl", "0", "-1"},
+	{"lset", "kl", "-1", "z"},
+	{"blpop", "kmissing", "kl", "1"},
+	{"brpop", "kl", "kmissing", "1"},
+	{"hrandfield", "kh", "-3", "withvalues"},
+	{"hset", "kh", "f", "v", "g", "w"},
+	{"hincrbyfloat", "kh", "n", "1.5"},
+	{"hmget", "kh", "f", "nosuch", "n"},
+	{"srandmember", "kS", "-3"},
+	{"spop", "kS", "1"},
+	{"smove", "kS", "kmissing", "m1"},
+	{"sinterstore", "kmissing", "kS", "kS"},
+	{"sdiffstore", "kS", "kS", "kmissing"},
+	{"sscan", "kS", "0", "match", "*", "count", "10"},
+	{"getrange", "ks", "0", "-1"},
+	{"setrange", "ks", "3", "xyz"},
+	{"incrbyfloat", "ks", "1.5"},
+	{"mset", "ks", "v", "kmissing", "w"},
+	{"rename", "ks", "kmissing"},
+	{"select", "0"},
+	{"subscribe", "ch1", "ch2"},
+	{"publish", "ch1", "hello"},
+	{"rconf", "add", "4", "http://127.0.0.1:1"},
+	{"member", "list"},
+	{"keys", "k[a-z]*"},
+}
+
+// c04FromTemplate derives the run's systematic input: template t cut to a
+// prefix, or with one word dropped, or with one word replaced by an option
+// keyword of that command.
+func c04FromTemplate(r *core.Rand, cell int) []B {
+	t := c04Templates[cell%len(c04Templates)]
+	variant := cell / len(c04Templates)
+	a := append([]string{}, t...)
+	switch {
+	case variant%3 == 0:
+		// every prefix length in turn
+		n := 1 + (variant/3)%len(t)
+		a = a[:n]
+	case variant%3 == 1 && len(t) > 2:
+		// one word dropped
+		i := 1 + (variant/3)%(len(t)-1)
+		a = append(a[:i], a[i+1:]...)
+	default:
+		// a value replaced by an option keyword (or an option by a value)
+		i := 1 + (variant/3)%(len(t)-1)
+		if os := cmdOptions[t[0]]; len(os) > 0 && r.Bool(0.7) {
+			a[i] = pick(r, os)
+		} else {
+			a[i] = pick(r, advAlphabet)
+		}
+	}
+	out := make([]B, len(a))
+	for i, x := range a {
+		if i == 0 {
+			x = mixCase(r, x)
+		}
+		out[i] = B(x)
+	}
+	return out
+}
+
 func genC04(r *core.Rand, env *core.Env, run int) *Scenario {
 	if os.Getenv("VERIF_RACE") == "1" {
 		return genC04Parallel(r, env, run)
@@ -155,7 +242,15 @@ func genC04(r *core.Rand, env *core.Env, run int) *Scenario {
 		}
 		a := []B{B(mixCase(r, name))}
 		key := pick(r, typedKeys)
-		for j := 0; j < arity; j++ {
+		if i == 1 {
+			// the second input walks the (template x cut) grid
+			a = c04FromTemplate(r, run/2)
+			name, arity = strings.ToLower(string(a[0])), len(a)-1
+			if len(a) > 1 {
+				key = string(a[1])
+			}
+		}
+		for j := 0; j < arity && i != 1; j++ {
 			var s string
 			switch {
 			case j == 0 && r.Bool(0.8):
